@@ -59,6 +59,24 @@
 (*             length is a multiple of M fails the whole request.          *)
 (*   Finding2  insane-json accepts `lax` lines, so they are stored instead *)
 (*             of rejecting the request.                                   *)
+(*   Finding3  documentDelayed negates the delay: Time.Sub saturates at    *)
+(*             -2^63 ns for a time more than ~292 years ahead, the negation*)
+(*             overflows, and the far-future time is kept for the ID.      *)
+(*   Finding4  parseESTime checks the day against 31 only; time.Date then  *)
+(*             normalises "02-30" to March 1/2: a value that is no time in *)
+(*             any supported format gets a time the document never stated. *)
+(*                                                                         *)
+(* Time stamps at the syntax level (Alpha = "stamp").  A fourth time class,*)
+(* `stamp`, stands for a concrete time stamp given by its structure (digit *)
+(* strings of the six components, the five separators, fraction, zone,     *)
+(* junk around it).  The reference decides from the structure whether it   *)
+(* is a time in a supported format ("2006-01-02 15:04:05.999", RFC 3339    *)
+(* with or without fraction) and which instant it denotes (day number and  *)
+(* millisecond of the day, proleptic Gregorian calendar); the handler side *)
+(* transcribes parseESTime over the rendered TEXT (fixed positions) and    *)
+(* time.Date's normalisation.  The handler's clock is unknown: "now" lies  *)
+(* somewhere in [NowLoDay, NowHiDay]; with a tick of TickDays days the     *)
+(* window test yields doc / recv / either for every `now` of the interval. *)
 (***************************************************************************)
 EXTENDS Integers, Sequences, FiniteSets, TLC, Json
 
@@ -68,7 +86,7 @@ CONSTANTS M,          \* max-document-size = reader buffer size (model bytes)
           Drift, Future,   \* AllowedTimeDrift / FutureAllowedTimeDrift in ticks
           Alpha,      \* name of the line alphabet: "core" | "time" | "full"
           MixedTerm,  \* TRUE: LF / CRLF chosen per line; FALSE: per body
-          Finding1, Finding2
+          Finding1, Finding2, Finding3, Finding4
 
 ASSUME M >= 8 /\ M % 2 = 0 /\ Drift % 2 = 0 /\ Future % 2 = 0 /\ Drift > 2 /\ Future > 2
 
@@ -92,6 +110,7 @@ Mid == M \div 2                  \* a length with nothing special about it (3 <=
 None == [k |-> "none", off |-> 0, fmt |-> "-"]
 Unp  == [k |-> "unp", off |-> 0, fmt |-> "-"]
 Val(o, f) == [k |-> "val", off |-> o, fmt |-> f]      \* fmt: "es" | "nano" | "rfc" | "any" (driver picks)
+Stp(n) == [k |-> "stamp", off |-> n, fmt |-> "-"]     \* the n-th entry of Stamps (below)
 NoTm == <<None, None, None>>
 Ln(c, n, tm) == [c |-> c, len |-> n, tm |-> tm]
 
@@ -127,9 +146,174 @@ FullLines ==
   \cup {Ln(c, n, NoTm) : c \in {"non", "bad", "lax"}, n \in {Mid, M - 2, M - 1, M, M + 1, 2 * M}}
   \cup {Ln(c, n, NoTm) : c \in {"ai", "ao"}, n \in {Mid, M - 1, M, 2 * M}}
 
-Lines == IF Alpha = "core" THEN CoreLines ELSE IF Alpha = "time" THEN TimeLines ELSE FullLines
-\* the time alphabet is only about one document behind one action line
-FirstLines == IF Alpha = "time" THEN {Ln("ac", Mid, NoTm)} ELSE Lines
+\* ---------------------------------------------------------------- time stamps at the syntax level
+\* A stamp is the structure of one concrete time-field value; chars are 1-character strings.
+Dig == <<"0", "1", "2", "3", "4", "5", "6", "7", "8", "9">>
+DigitVal(c) == CASE c = "0" -> 0 [] c = "1" -> 1 [] c = "2" -> 2 [] c = "3" -> 3 [] c = "4" -> 4 [] c = "5" -> 5
+                 [] c = "6" -> 6 [] c = "7" -> 7 [] c = "8" -> 8 [] c = "9" -> 9 [] OTHER -> -1
+AllDigits(ds) == \A i \in 1..Len(ds) : DigitVal(ds[i]) >= 0
+RECURSIVE NumOf(_)                         \* value of a digit string of at most 9 digits
+NumOf(ds) == IF ds = <<>> THEN 0 ELSE NumOf(SubSeq(ds, 1, Len(ds) - 1)) * 10 + DigitVal(ds[Len(ds)])
+D2(n) == <<Dig[(n \div 10) + 1], Dig[(n % 10) + 1]>>
+D4(n) == D2(n \div 100) \o D2(n % 100)
+
+ESSep  == <<"-", "-", " ", ":", ":">>       \* consts.ESTimeFormat "2006-01-02 15:04:05.999"
+RFCSep == <<"-", "-", "T", ":", ":">>       \* time.RFC3339Nano / time.RFC3339
+NoZone == [sg |-> "", zh |-> <<>>, zc |-> <<>>, zm |-> <<>>]
+ZoneZ  == [sg |-> "Z", zh |-> <<>>, zc |-> <<>>, zm |-> <<>>]
+ZoneOff(sg, h, m) == [sg |-> sg, zh |-> D2(h), zc |-> <<":">>, zm |-> D2(m)]
+
+\* the value in the ES layout, UTC, no fraction; every other stamp is a variation of one of these
+Mk(y, mo, d, h, mi, s) == [y |-> D4(y), mo |-> D2(mo), d |-> D2(d), h |-> D2(h), mi |-> D2(mi), s |-> D2(s),
+                           sep |-> ESSep, fdot |-> <<>>, fr |-> <<>>, z |-> NoZone, pre |-> <<>>, post |-> <<>>, cut |-> 0]
+AsRFC(st, z) == [st EXCEPT !.sep = RFCSep, !.z = z]
+Layouts(st) == {st, AsRFC(st, ZoneZ)}
+
+ZoneText(z) == IF z.sg = "" THEN <<>> ELSE <<z.sg>> \o z.zh \o z.zc \o z.zm
+FullText(st) == st.pre \o st.y \o <<st.sep[1]>> \o st.mo \o <<st.sep[2]>> \o st.d \o <<st.sep[3]>> \o st.h \o <<st.sep[4]>>
+                \o st.mi \o <<st.sep[5]>> \o st.s \o st.fdot \o st.fr \o ZoneText(st.z) \o st.post
+\* cut > 0: only the first `cut` characters are sent (date only, no seconds, ...)
+Text(st) == IF st.cut > 0 /\ st.cut < Len(FullText(st)) THEN SubSeq(FullText(st), 1, st.cut) ELSE FullText(st)
+
+\* ---- the reference: is it a time in a supported format, and which
+Leap(y) == (y % 4 = 0 /\ y % 100 # 0) \/ y % 400 = 0
+DaysIn(mo, y) == IF mo = 2 THEN (IF Leap(y) THEN 29 ELSE 28) ELSE IF mo \in {4, 6, 9, 11} THEN 30 ELSE 31
+\* days since 1970-01-01 of a civil date (proleptic Gregorian; \div is floor)
+DaysFromCivil(y, mo, d) ==
+  LET yy == IF mo <= 2 THEN y - 1 ELSE y
+      era == yy \div 400
+      yoe == yy - era * 400
+      mp == IF mo > 2 THEN mo - 3 ELSE mo + 9
+      doy == (153 * mp + 2) \div 5 + d - 1
+      doe == yoe * 365 + yoe \div 4 - yoe \div 100 + doy
+  IN era * 146097 + doe - 719468
+W(ds, n) == Len(ds) = n /\ AllDigits(ds)
+\* milliseconds of a fraction: its first three digits (seq.TimeToMID truncates to ms)
+MsOf(fr) == NumOf(SubSeq(fr \o <<"0", "0", "0">>, 1, 3))
+
+WellFormedClock(st) ==
+  /\ st.pre = <<>> /\ st.post = <<>> /\ st.cut = 0
+  /\ W(st.y, 4) /\ W(st.mo, 2) /\ W(st.d, 2) /\ W(st.h, 2) /\ W(st.mi, 2) /\ W(st.s, 2)
+  /\ NumOf(st.mo) \in 1..12 /\ NumOf(st.d) \in 1..DaysIn(NumOf(st.mo), NumOf(st.y))
+  /\ NumOf(st.h) \in 0..23 /\ NumOf(st.mi) \in 0..59 /\ NumOf(st.s) \in 0..59
+  /\ \/ st.fdot = <<>> /\ st.fr = <<>>
+     \/ st.fdot = <<".">> /\ Len(st.fr) \in 1..9 /\ AllDigits(st.fr)
+ValidES(st) == WellFormedClock(st) /\ st.sep = ESSep /\ st.z = NoZone
+ValidRFC(st) == /\ WellFormedClock(st) /\ st.sep = RFCSep
+                /\ \/ st.z = ZoneZ
+                   \/ /\ st.z.sg \in {"+", "-"} /\ W(st.z.zh, 2) /\ W(st.z.zm, 2) /\ st.z.zc = <<":">>
+                      /\ NumOf(st.z.zh) \in 0..23 /\ NumOf(st.z.zm) \in 0..59
+RefValid(st) == ValidES(st) \/ ValidRFC(st)
+\* the instant a valid stamp denotes: <<day number, millisecond of that day>> in UTC
+Instant(st) ==
+  LET zo == IF st.z.sg \in {"+", "-"} THEN (NumOf(st.z.zh) * 3600 + NumOf(st.z.zm) * 60) * (IF st.z.sg = "+" THEN 1 ELSE -1) ELSE 0
+      secs == NumOf(st.h) * 3600 + NumOf(st.mi) * 60 + NumOf(st.s) - zo
+      day == DaysFromCivil(NumOf(st.y), NumOf(st.mo), NumOf(st.d)) + secs \div 86400
+  IN <<day, (secs % 86400) * 1000 + MsOf(st.fr)>>
+
+\* ---- the clock of the stamp stage: one tick is TickDays days, `now` is somewhere in [NowLoDay, NowHiDay + 1)
+TickDays == 365
+NowLoDay == 20454           \* 2026-01-01
+NowHiDay == 24106           \* 2035-12-31
+MaxDurDays == 106751        \* math.MaxInt64 nanoseconds (time.Duration) in whole days
+\* window test of a day number for every possible `now` (one day of margin on each side)
+RefWindow(day) ==
+  IF day - 1 >= NowHiDay + 1 - Drift * TickDays /\ day + 1 <= NowLoDay + Future * TickDays THEN "doc"
+  ELSE IF day + 1 < NowLoDay - Drift * TickDays \/ day - 1 > NowHiDay + 1 + Future * TickDays THEN "recv"
+  ELSE "either"
+
+\* ---- the handler side: proxy/bulk/processor.go parseESTime over the text, positions as in the code (1-based here)
+ESParseG(t, lenientDay) ==
+  LET bad == [ok |-> FALSE, day |-> 0, ms |-> 0]
+      PU(a, b, lo, hi) == LET ds == SubSeq(t, a, b) IN IF AllDigits(ds) /\ NumOf(ds) >= lo /\ NumOf(ds) <= hi THEN NumOf(ds) ELSE -1
+  IN IF Len(t) < 19 THEN bad
+     ELSE LET y == PU(1, 4, 0, 9999)
+              mo == PU(6, 7, 1, 12)
+              d == PU(9, 10, 1, 31)          \* "Day in a month will be checked in the Date function" - it is not
+              h == PU(12, 13, 0, 23)
+              mi == PU(15, 16, 0, 59)
+              s == PU(18, 19, 0, 59)
+              rest == SubSeq(t, 20, Len(t))
+              fd == IF rest = <<>> THEN <<>> ELSE Tail(rest)
+          IN IF y < 0 \/ mo < 0 \/ d < 0 \/ h < 0 \/ mi < 0 \/ s < 0 THEN bad
+             ELSE IF ~(t[5] = "-" /\ t[8] = "-" /\ t[11] = " " /\ t[14] = ":" /\ t[17] = ":") THEN bad
+             ELSE IF rest # <<>> /\ (rest[1] # "." \/ Len(rest) = 1) THEN bad
+             ELSE IF ~AllDigits(fd) \/ Len(fd) > 9 THEN bad          \* (longer fractions are not modelled)
+             ELSE IF ~lenientDay /\ d > DaysIn(mo, y) THEN bad        \* the repaired design
+             ELSE \* time.Date(year, month, day, ...) normalises a day beyond the month's end into the next month
+                  [ok |-> TRUE, day |-> DaysFromCivil(y, mo, 1) + d - 1, ms |-> (h * 3600 + mi * 60 + s) * 1000 + MsOf(fd)]
+ESParse(t) == ESParseG(t, Finding4)
+\* the deviation of Finding4 is exactly: accepted only because the day is not checked against the month
+Dev4(st) == Finding4 /\ ESParseG(Text(st), TRUE).ok /\ ~ESParseG(Text(st), FALSE).ok
+\* extractDocTime on one value: parseESTime, then time.Parse(RFC3339Nano), time.Parse(RFC3339) (standard library: as the reference)
+ImplStamp(st) ==
+  LET e == ESParse(Text(st)) IN
+  IF e.ok THEN e
+  ELSE IF ValidRFC(st) THEN [ok |-> TRUE, day |-> Instant(st)[1], ms |-> Instant(st)[2]]
+  ELSE [ok |-> FALSE, day |-> 0, ms |-> 0]
+\* requestTime.Sub(docTime) saturates; documentDelayed negates the saturated value
+SurelySaturated(day) == day - 1 > NowHiDay + 1 + MaxDurDays
+MaybeSaturated(day) == day + 1 >= NowLoDay + MaxDurDays
+ImplWindow(day) == IF Finding3 /\ SurelySaturated(day) THEN "doc"
+                   ELSE IF Finding3 /\ MaybeSaturated(day) THEN "either"
+                   ELSE RefWindow(day)
+
+\* ---- the stamps of the stage: every component at its bounds
+YearPal  == {0, 1970, 2000, 2024, 2025, 2100, 2300, 2400, 9999}
+MonthPal == {0, 1, 2, 4, 12, 13}
+DayPal   == {0, 1, 28, 29, 30, 31, 32}
+HourPal  == {0, 23, 24, 25, 99}
+MinPal   == {0, 59, 60, 99}
+SecPal   == {0, 59, 60, 99}
+DateStamps == UNION {Layouts(Mk(y, mo, d, t[1], t[2], t[3])) : y \in YearPal, mo \in MonthPal, d \in DayPal,
+                                                                t \in {<<0, 0, 0>>, <<23, 59, 59>>}}
+ClockStamps == UNION {Layouts(Mk(b[1], b[2], b[3], h, mi, s)) : b \in {<<2024, 2, 29>>, <<2025, 12, 31>>, <<2025, 3, 1>>},
+                                                               h \in HourPal, mi \in MinPal, s \in SecPal}
+Base1 == Mk(2025, 6, 15, 12, 30, 45)
+Base2 == Mk(2024, 12, 31, 23, 59, 59)
+Base3 == Mk(2025, 1, 1, 0, 0, 0)
+Fracs == {<<"5">>, <<"1", "2">>, <<"0", "0", "1">>, <<"9", "9", "9">>, <<"1", "2", "3", "4", "5", "6">>,
+          <<"9", "9", "9", "9", "9", "9", "9", "9", "9">>, <<"0", "0", "0", "0", "0", "0", "0", "0", "1">>,
+          <<>>, <<"5", "x">>, <<"-", "5">>, <<" ", "5">>}             \* the last four: no time
+FracStamps == UNION {Layouts([b EXCEPT !.fdot = <<".">>, !.fr = fr]) : b \in {Base1, Base2}, fr \in Fracs}
+              \cup UNION {Layouts([b EXCEPT !.fdot = <<c>>, !.fr = <<"5">>]) : b \in {Base1}, c \in {":", " ", "-"}}
+ZoneStamps == {AsRFC(b, ZoneOff(sg, zh, zm)) : b \in {Base2, Base3, [Base1 EXCEPT !.fdot = <<".">>, !.fr = <<"2", "5">>]},
+                                               sg \in {"+", "-"}, zh \in {0, 3, 14, 23, 25, 99}, zm \in {0, 30, 59, 61, 99}}
+\* layout errors: one separator wrong, a component of the wrong width or with a non-digit, junk around, zone on the
+\* wrong layout, truncated values.  (Not emitted, because the standard library is lenient there: one-digit hour in the
+\* RFC layouts, `,` as fraction separator, more than 9 fraction digits, zone hour 24 / zone minute 60.)
+SepErr == UNION {Layouts(Base1) \cup {[st EXCEPT !.sep[i] = c] : st \in Layouts(Base1), i \in 1..5, c \in {"/", "_", "T", " ", ".", "t"}}}
+Widths(f) == IF f = "y" THEN {<<"2", "5">>, <<"0", "2", "0", "2", "5">>, <<"2", "0", "2", "x">>, <<"+", "2", "0", "2">>}
+             ELSE {<<"6">>, <<"0", "0", "6">>, <<" ", "6">>, <<"1", "x">>, <<"+", "6">>, <<"-", "1">>, <<>>}
+WidthErr == {[st EXCEPT !.y = w] : st \in Layouts(Base1), w \in Widths("y")}
+       \cup {[st EXCEPT !.mo = w] : st \in Layouts(Base1), w \in Widths("mo")}
+       \cup {[st EXCEPT !.d = w] : st \in Layouts(Base1), w \in Widths("d")}
+       \cup {[st EXCEPT !.mi = w] : st \in Layouts(Base1), w \in Widths("mi")}
+       \cup {[st EXCEPT !.s = w] : st \in Layouts(Base1), w \in Widths("s")}
+       \cup {[Base1 EXCEPT !.h = w] : w \in Widths("h")}
+       \cup {[st EXCEPT !.h = w] : st \in Layouts(Base1), w \in {<<"0", "1", "2">>, <<"1", "x">>, <<"-", "1">>}}
+       \* the same with a fraction behind, so that the text is long enough for the positional parser
+       \cup {[st EXCEPT !.mo = <<"6">>, !.fdot = <<".">>, !.fr = <<"5", "0", "0">>] : st \in Layouts(Base1)}
+       \cup {[st EXCEPT !.s = <<"5">>, !.fdot = <<".">>, !.fr = <<"5", "0", "0">>] : st \in Layouts(Base1)}
+JunkErr == {[st EXCEPT !.pre = <<c>>] : st \in Layouts(Base1), c \in {" ", "+", "0"}}
+      \cup {[st EXCEPT !.post = <<c>>] : st \in Layouts(Base1), c \in {" ", "Z", "0", "."}}
+      \cup {[Base1 EXCEPT !.z = z] : z \in {ZoneZ, ZoneOff("+", 3, 0)}}                  \* zone on the ES layout
+      \cup {AsRFC(Base1, z) : z \in {NoZone, [ZoneZ EXCEPT !.sg = "z"], [ZoneOff("+", 3, 0) EXCEPT !.zc = <<>>],
+                                     [ZoneOff("+", 3, 0) EXCEPT !.zm = <<>>, !.zc = <<>>], [ZoneOff("+", 3, 0) EXCEPT !.sg = " "]}}
+      \cup {[st EXCEPT !.cut = n] : st \in Layouts(Base1), n \in {4, 10, 11, 13, 16, 18}}
+StampSet == DateStamps \cup ClockStamps \cup FracStamps \cup ZoneStamps \cup SepErr \cup WidthErr \cup JunkErr
+
+RECURSIVE SeqOfSet(_)
+SeqOfSet(S) == IF S = {} THEN <<>> ELSE LET x == CHOOSE y \in S : TRUE IN <<x>> \o SeqOfSet(S \ {x})
+Stamps == SeqOfSet(StampSet)
+\* one action line, then one document: the stamp alone, or behind an unparsable field and in front of a valid one
+StampLines == {Ln("ac", Mid, NoTm)}
+         \cup {Ln("obj", Mid, <<Stp(n), None, None>>) : n \in 1..Len(Stamps)}
+         \cup {Ln("obj", Mid, <<Unp, Stp(n), Val(0, "any")>>) : n \in 1..Len(Stamps)}
+
+Lines == IF Alpha = "core" THEN CoreLines ELSE IF Alpha = "time" THEN TimeLines ELSE IF Alpha = "stamp" THEN StampLines ELSE FullLines
+\* the time and stamp alphabets are only about one document behind one action line
+FirstLines == IF Alpha \in {"time", "stamp"} THEN {Ln("ac", Mid, NoTm)} ELSE Lines
 
 \* ---------------------------------------------------------------- content predicates
 IsJSONObject(c) == c \in {"ac", "ai", "ao", "obj"}
@@ -170,14 +354,23 @@ RECURSIVE ExtractFrom(_, _)
 ExtractFrom(tm, i) == IF i > 3 THEN 0
                       ELSE IF tm[i].k = "none" THEN ExtractFrom(tm, i + 1)
                       ELSE IF tm[i].k = "val" THEN i
+                      ELSE IF tm[i].k = "stamp" /\ ImplStamp(Stamps[tm[i].off]).ok THEN i
                       ELSE ExtractFrom(tm, i + 1)
 \* Process: docDelay = requestTime - docTime; the ID gets docTime unless delayed; requestTime if nothing parsed
 ProcessTime(tm) ==
   LET f == ExtractFrom(tm, 1) IN
-  IF f = 0 THEN [tv |-> "recv", fld |-> 0, off |-> 0]
+  IF f = 0 THEN [tv |-> "recv", fld |-> 0, off |-> 0, abs |-> <<>>]
+  ELSE IF tm[f].k = "stamp"
+    THEN LET p == ImplStamp(Stamps[tm[f].off]) IN [tv |-> ImplWindow(p.day), fld |-> f, off |-> 0, abs |-> <<p.day, p.ms>>]
   ELSE LET o == tm[f].off
            kept == {e \in Skews : ~Delayed(e - o)}
-       IN [tv |-> IF kept = Skews THEN "doc" ELSE IF kept = {} THEN "recv" ELSE "either", fld |-> f, off |-> o]
+       IN [tv |-> IF kept = Skews THEN "doc" ELSE IF kept = {} THEN "recv" ELSE "either", fld |-> f, off |-> o, abs |-> <<>>]
+\* findings whose deviation decides the time of this document
+DevTime(tm) ==
+  LET f == ExtractFrom(tm, 1) IN
+  IF f = 0 \/ tm[f].k # "stamp" THEN {}
+  ELSE LET st == Stamps[tm[f].off] IN
+       (IF Dev4(st) THEN {4} ELSE {}) \cup (IF Finding3 /\ MaybeSaturated(ImplStamp(st).day) THEN {3} ELSE {})
 
 \* ---------------------------------------------------------------- the handler
 Init == /\ sent = <<>> /\ style \in (IF MixedTerm THEN {1} ELSE {1, 2}) /\ closed = "open"
@@ -260,7 +453,7 @@ Process ==
         ELSE IF ~IsJSONObject(l.c) /\ ~laxTaken
           THEN pc' = "skipAction" /\ UNCHANGED <<alr, docs, calls, resp, dev>>    \* errNotAnObject: continue
         ELSE /\ docs' = Append(docs, [i |-> i] @@ ProcessTime(l.tm))
-             /\ dev' = IF laxTaken THEN dev \cup {2} ELSE dev
+             /\ dev' = (IF laxTaken THEN dev \cup {2} ELSE dev) \cup DevTime(l.tm)
              /\ pc' = "skipAction" /\ UNCHANGED <<alr, calls, resp>>
   /\ UNCHANGED <<sent, style, closed, cur, off, late>>
 
@@ -315,12 +508,14 @@ RolesFrom(b, i, expectDoc) ==
 \* time an ID must carry: the first time field that parses decides; inside [request - Drift, request + Future] -> own time
 InWindow(o, e) == e - Drift <= o /\ o <= e + Future
 RefTime(tm) ==
-  LET P == {i \in 1..3 : tm[i].k = "val"} IN
-  IF P = {} THEN [tv |-> "recv", fld |-> 0, off |-> 0]
+  LET P == {i \in 1..3 : tm[i].k = "val" \/ (tm[i].k = "stamp" /\ RefValid(Stamps[tm[i].off]))} IN
+  IF P = {} THEN [tv |-> "recv", fld |-> 0, off |-> 0, abs |-> <<>>]
   ELSE LET f == CHOOSE i \in P : \A j \in P : i <= j
            o == tm[f].off
            S == {e \in Skews : InWindow(o, e)}
-       IN [tv |-> IF S = Skews THEN "doc" ELSE IF S = {} THEN "recv" ELSE "either", fld |-> f, off |-> o]
+       IN IF tm[f].k = "stamp"
+            THEN LET t == Instant(Stamps[o]) IN [tv |-> RefWindow(t[1]), fld |-> f, off |-> 0, abs |-> t]
+            ELSE [tv |-> IF S = Skews THEN "doc" ELSE IF S = {} THEN "recv" ELSE "either", fld |-> f, off |-> o, abs |-> <<>>]
 
 \* fits[i]: line i counts as within the size limit
 RefOutcome(b, fits) ==
@@ -349,7 +544,7 @@ Final == pc = "done" /\ closed # "open"
 TypeOK == /\ pc \in {"skipAction", "readDoc", "skipRest", "process", "finish", "done"}
           /\ closed \in {"open", "eof", "eofdata"} /\ alr \in 0..ActionLinesToCheck
           /\ cur \in 1..(Len(sent) + 1) /\ off >= 0 /\ Len(calls) <= 1
-          /\ resp.st \in {"none", "ok", "rej"} /\ dev \subseteq {1, 2}
+          /\ resp.st \in {"none", "ok", "rej"} /\ dev \subseteq {1, 2, 3, 4}
 
 \* all-or-nothing: nothing reaches the stores before the whole body was processed, nothing on a rejected request
 NothingBeforeTheEnd == pc # "done" => calls = <<>>
@@ -376,11 +571,17 @@ EofInsensitive == sent = <<>> \/ sent[Len(sent)].t # 0 \/ sent[Len(sent)].len % 
 
 \* compact form of a line: the time descriptor only where there is one
 Compact(l) == IF l.tm = NoTm THEN [c |-> l.c, len |-> l.len, t |-> l.t]
-              ELSE [c |-> l.c, len |-> l.len, t |-> l.t, tm |-> [i \in 1..3 |-> IF l.tm[i].k = "val" THEN l.tm[i] ELSE [k |-> l.tm[i].k]]]
+              ELSE [c |-> l.c, len |-> l.len, t |-> l.t,
+                    tm |-> [i \in 1..3 |-> IF l.tm[i].k = "val" THEN l.tm[i]
+                                           ELSE IF l.tm[i].k = "stamp" THEN [k |-> "stamp", text |-> Text(Stamps[l.tm[i].off])]
+                                           ELSE [k |-> l.tm[i].k]]]
 
-Emit == ~Final \/ PrintT(<<"CASE", ToJson([m |-> M, drift |-> Drift, future |-> Future,
-                                           lines |-> [i \in 1..Len(sent) |-> Compact(sent[i])],
-                                           eofdata |-> closed = "eofdata", gzipok |-> EofInsensitive,
-                                           allowed |-> SetToSeq(Allowed(sent)), impl |-> Outcome,
-                                           dev |-> SetToSeq(dev)])>>)
+CaseRec == [m |-> M, drift |-> Drift, future |-> Future,
+            lines |-> [i \in 1..Len(sent) |-> Compact(sent[i])],
+            eofdata |-> closed = "eofdata", gzipok |-> EofInsensitive,
+            allowed |-> SetToSeq(Allowed(sent)), impl |-> Outcome,
+            dev |-> SetToSeq(dev)]
+\* the stamp stage also tells the driver which clock the expectations were decided for
+Clock == [tickdays |-> TickDays, nowlo |-> NowLoDay, nowhi |-> NowHiDay]
+Emit == ~Final \/ PrintT(<<"CASE", IF Alpha = "stamp" THEN ToJson(CaseRec @@ [clock |-> Clock]) ELSE ToJson(CaseRec)>>)
 =============================================================================
